@@ -61,7 +61,7 @@ class ValidateAndReturnConfig:
         return result == config
 
 
-@contract(CF + "_try_load_from_location", props=["C06"],
+@contract(CF + "_try_load_from_location~c06", props=["C06"],
           types=dict(location=PathT, config=Dict, is_valid=Bool, errors=SeqOf(Str)), returns=Opt(Dict), raises=[], **FAMILY)
 class TryLoadFromLocation:
     """An auto-discovered file that cannot be used is skipped with a warning -- never an exception."""
@@ -76,7 +76,7 @@ class LoadFromExplicitPath:
         return exc_class == "ConfigError"
 
 
-@contract(CF + "_load_from_default_locations", props=["C06"],
+@contract(CF + "_load_from_default_locations~c06", props=["C06"],
           types=dict(existing_locations=SeqOf(PathT), location=PathT, loaded_config=Opt(Dict)), returns=Dict, raises=[], **FAMILY)
 class LoadFromDefaultLocations:
     """Auto-discovery never fails: unusable files are skipped, the defaults are the fallback."""
